@@ -81,6 +81,46 @@ def rule_flag_forwarding(ctx, chk):
     return n
 
 
+def rule_option_forwarding(ctx, chk):
+    """A function of the query unit that takes an option (UriBool / UriBreakConversion parameter) and hands options of
+    that type to an internal worker must hand over its own parameter, the same one at every call of that worker: the
+    items of one list are then all treated under the caller's options (seed C17-8: the call for the last item passed a
+    constant)."""
+    prog, irp = ctx.prog, ctx.irp
+    OPT = ('UriBool', 'UriBreakConversion')
+    for name, f in sorted(irp.funcs.items()):
+        if not (f.unit or '').endswith('UriQuery.c'):
+            continue
+        own = {}
+        for p in f.params:
+            t = (f.param_types.get(p) or '').replace('const ', '').strip()
+            if t in OPT:
+                own.setdefault(t, []).append(p)
+        if not own:
+            continue
+        sites = {}
+        for b in f.blocks:
+            for i in b.ins:
+                if i.op != 'call':
+                    continue
+                t = call_target(i)
+                decl = prog.funcs.get(t)
+                if decl is None or base_name(t) not in ('uriAppendQueryItem',):
+                    continue
+                params = [c for c in decl.c if c.k == 'parm']
+                for p, a in zip(params, i.args):
+                    pt = (p.ty or '').replace('const ', '').strip()
+                    if pt in OPT and pt in own:
+                        sites.setdefault((t, p.v, pt), []).append((i.loc, pp.expr(strip_casts(a))))
+        for (t, pv, pt), lst in sorted(sites.items()):
+            for loc, txt in lst:
+                ok = txt in own[pt] and txt == lst[0][1]
+                chk.add('option-forwarding', 'option:%s->%s/%s' % (base_name(name), base_name(t), pv) if ok else
+                        'option:%s->%s/%s:%s' % (base_name(name), base_name(t), pv, txt[:30]), ok, loc,
+                        '%s passes `%s` for option %s (%s) of %s; its own %s parameters: %s; first call passes `%s`' %
+                        (name, txt[:40], pv, pt, t, pt, ', '.join(own[pt]), lst[0][1][:40]), func=name)
+
+
 def run(ctx, chk):
     prog, irp = ctx.prog, ctx.irp
     chk.explanation = ('Partial, structural decision of C17. Decided: the compose engine is executed symbolically (write mode '
@@ -105,6 +145,9 @@ def run(ctx, chk):
              'the callee expects that enumeration and a UriBool where it expects a UriBool: the compiler converts one into the other '
              'silently, and a swapped pair makes keys and values be unescaped under different options', floor=8)
     rule_flag_forwarding(ctx, chk)
+    chk.rule('option-forwarding', 'the dissecting function passes its own plus-to-space and line-break parameters, the same ones '
+             'at every call of uriAppendQueryItem: every item of a list is unescaped under the caller\'s options', floor=8)
+    rule_option_forwarding(ctx, chk)
     chk.rule('dissect-unescape', 'uriAppendQueryItem unescapes every key / value text it copies, on every success path, with the '
              'caller\'s plus-to-space and line-break options', floor=2)
     chk.rule('item-count', 'uriAppendQueryItem increments *itemCount exactly on the paths that leave a node linked', floor=4)
